@@ -24,6 +24,7 @@ FIELD_SRC = {"omitted": None, "default": "pa.Field()", "ge0": "pa.Field(ge=0)", 
              "unique": "pa.Field(unique=True)"}
 CFG_SRC = {"strict": {"T": "True", "F": "False", "filter": "'filter'"}, "coerce": {"T": "True", "F": "False"},
            "ordered": {"T": "True", "F": "False"}, "add_missing_columns": {"T": "True", "F": "False"},
+           "multiindex_strict": {"T": "True", "F": "False"}, "multiindex_coerce": {"T": "True", "F": "False"},
            "name": {"nm": "'nm'", "kid": "'kid'"}}
 
 
@@ -168,7 +169,8 @@ def project(schema, backend: str, clsname: str) -> Dict[str, Any]:
     return {"cols": [p_comp(c, backend, k, True) for k, c in schema.columns.items()], "index": levels,
             "checks": [p_check(x, backend, True) for x in schema.checks], "strict": strict, "coerce": tf(schema.coerce),
             "ordered": tf(schema.ordered), "name": "class" if schema.name == clsname else schema.name,
-            "amc": tf(getattr(schema, "add_missing_columns", False))}
+            "amc": tf(getattr(schema, "add_missing_columns", False)),
+            "mi": {"strict": tf(ix.strict), "coerce": tf(ix._coerce)} if ix is not None and hasattr(ix, "indexes") else {"strict": "-", "coerce": "-"}}
 
 
 def build_object_api(rec: Dict[str, Any], backend: str, ns: Dict[str, Any], clsname: str):
@@ -200,7 +202,7 @@ def build_object_api(rec: Dict[str, Any], backend: str, ns: Dict[str, Any], clsn
     kw: Dict[str, Any] = {}
     if rec["index"]:
         lv = [comp(c, False) for c in rec["index"]]
-        kw["index"] = lv[0] if len(lv) == 1 else pa.MultiIndex(lv)
+        kw["index"] = lv[0] if len(lv) == 1 else pa.MultiIndex(lv, strict=rec["mi"]["strict"] == "T", coerce=rec["mi"]["coerce"] == "T")
     kw["add_missing_columns"] = rec["amc"] == "T"
     return pa.DataFrameSchema(cols, checks=checks(rec["checks"], True), strict={"F": False, "T": True, "filter": "filter"}[rec["strict"]],
                               coerce=rec["coerce"] == "T", ordered=rec["ordered"] == "T",
@@ -229,7 +231,7 @@ def probes(rec: Dict[str, Any], backend: str):
     if "b" in keys and ka:
         frames.append(pd.DataFrame({"b": ["p", "q"], ka: [2, 4]}))
         frames.append(pd.DataFrame({ka: [2, 4]}))
-    if rec["index"]:
+    if len(rec["index"]) == 1:
         more = []
         for f in frames[:4]:
             g = f.copy()
@@ -238,6 +240,21 @@ def probes(rec: Dict[str, Any], backend: str):
             h = f.copy()
             h.index = pd.Index([-1, 3], name=None)
             more.append(h)
+        frames += more
+    elif len(rec["index"]) > 1:
+        names = [l["key"] for l in rec["index"]]
+        more = []
+        for f in frames[:4]:
+            for lv0 in ([2, 4], [-1, 3], ["2", "4"]):
+                g = f.copy()
+                g.index = pd.MultiIndex.from_arrays([lv0, ["p", "q"]], names=names)
+                more.append(g)
+            g = f.copy()
+            g.index = pd.MultiIndex.from_arrays([[2, 4], ["p", "q"], [0, 0]], names=names + ["zz"])     # a foreign level
+            more.append(g)
+            g = f.copy()
+            g.index = pd.MultiIndex.from_arrays([["p", "q"], [2, 4]], names=names[::-1])                 # the other order
+            more.append(g)
         frames += more
     if backend == "polars":
         import polars as pl
@@ -278,7 +295,7 @@ def observe_model(vec: Dict[str, Any]) -> Dict[str, Any]:
     backend = vec["backend"]
     prog = vec["prog"]
     out: Dict[str, Any] = {"steps": [], "final": [], "verdicts": [], "skipped": None}
-    if backend == "polars" and any(c[f]["ann"] == "Index[int]" for c in prog for f in ("fa", "fb")):
+    if backend == "polars" and any(c[f]["ann"].startswith("Index[") for c in prog for f in ("fa", "fb")):
         out["skipped"] = "polars has no Index annotation"
         return out
     if backend == "polars" and any(c["prs"]["pred"] != "none" for c in prog):
